@@ -39,6 +39,14 @@ def gen_cases(tier, seed):
                 a = gg[int(rng.integers(len(gg)))]
                 c.update(L=a[0], k=a[1], s=a[2], p=a[3], d=a[4], N=int(rng.integers(1, 3)), C=int(rng.integers(1, 3)), cout=int(rng.integers(1, 3)),
                          bias=bool(rng.integers(2)))
+            if ident in ("conv2d", "conv1d") and r % 10 == 3:
+                # pointwise (1x1) kernels with every stride combination, with and without bias: enumerated, not left to the draw
+                combo = (r // 10) % 6
+                if ident == "conv2d":
+                    c.update(k=[1, 1], s=[[1, 1], [1, 2], [2, 1], [2, 2], [3, 2], [1, 1]][combo], p=[[0, 0], [0, 0], [0, 0], [1, 0], [0, 1], [1, 1]][combo], d=[1, 1],
+                             H=int(rng.integers(2, 6)), W=int(rng.integers(2, 6)), bias=bool(combo % 2 == 0 or combo == 5))
+                else:
+                    c.update(k=1, s=[1, 2, 3, 1, 2, 1][combo], p=[0, 0, 0, 1, 1, 2][combo], d=1, L=int(rng.integers(2, 7)), bias=bool(combo % 2 == 0))
             if ident in ("conv2d", "conv1d", "maxpool2d", "avgpool2d", "maxpool1d", "avgpool1d") and r % 12 == 7:
                 # a batch / channel count just above a power of two (work done in blocks: the last, partial block), small spatial extents
                 c["N"] = [129, 200, 257, 65, 130][(r // 12) % 5]
